@@ -300,6 +300,11 @@ func (x *Exec) assumptions(st *State) []*Term {
 		for _, t := range st.pc[st.focusAt:] {
 			add(t)
 		}
+		if st.focusNoDefs {
+			// "focus no-definitions ...": a step that needs only the named facts (pure arithmetic over
+			// values whose defining equations would only slow the solver down)
+			return out
+		}
 		for _, t := range st.ax {
 			add(t)
 		}
@@ -1354,7 +1359,12 @@ func (x *Exec) verifyContract(ct *Contract) (err error) {
 			for _, f := range finals {
 				var keep []*Term
 				f.st.focusSchemas = false
+				f.st.focusNoDefs = false
 				for _, lbl := range strings.Fields(sst.text) {
+					if lbl == "no-definitions" {
+						f.st.focusNoDefs = true
+						continue
+					}
 					if lbl == "path-int" {
 						// the integer / boolean part of the path condition (which branch, which index),
 						// without the conjuncts that compare real-valued terms
